@@ -986,6 +986,16 @@ static void do_op(char **t, int ntok)
 		else if (op[3] == 'b') rc = ntok > 4 ? cfg_setnbool(sec, s1, t[3][0] == '1' ? cfg_true : cfg_false, (unsigned)strtoul(t[4], NULL, 0)) : cfg_setbool(sec, s1, t[3][0] == '1' ? cfg_true : cfg_false);
 		else { s2 = dec(t[3], NULL); rc = ntok > 4 ? cfg_setnstr(sec, s1, s2, (unsigned)strtoul(t[4], NULL, 0)) : cfg_setstr(sec, s1, s2); }
 		fprintf(out, "r %s %d\n", op, rc);
+	} else if (!strcmp(op, "setlist_from")) {
+		/* <secref> <path> <n> <source index>...: a string list is set to a selection of its own elements, each handed over as the
+		 * getter returned it (arguments that alias the memory the call releases); n <= 3 */
+		const char *v[3] = { NULL, NULL, NULL };
+		int k, n;
+		NEED(4); SEC(t[1]); s1 = dec(t[2], NULL); n = atoi(t[3]);
+		if (n < 0 || n > 3 || ntok < 4 + n) die("setlist_from");
+		for (k = 0; k < n; k++) v[k] = cfg_getnstr(sec, s1, (unsigned)strtoul(t[4 + k], NULL, 0));
+		rc = n == 0 ? cfg_setlist(sec, s1, 0) : n == 1 ? cfg_setlist(sec, s1, 1, v[0]) : n == 2 ? cfg_setlist(sec, s1, 2, v[0], v[1]) : cfg_setlist(sec, s1, 3, v[0], v[1], v[2]);
+		fprintf(out, "r setlist_from %d\n", rc);
 	} else if (!strcmp(op, "setstr_from")) {
 		/* <secref> <path> <index> <source path> <source index>: the string the library itself returns for the source is handed
 		 * straight back to the setter (an argument that aliases stored memory) */
